@@ -571,6 +571,16 @@ class DLC(utils.EventEmitter):
         # TODO: handle all states
         self.send_frame(RFCOMM_Frame.ua(c_r=1 - self.c_r, dlci=self.dlci))
 
+        # The peer has closed the DLC: close this end too, so that both ends
+        # agree (this also covers the case where both ends disconnect at the
+        # same time, in which case no UA will be processed for this DLC).
+        self.change_state(DLC.State.DISCONNECTED)
+        if self.disconnection_result:
+            self.disconnection_result.set_result(None)
+            self.disconnection_result = None
+        self.multiplexer.on_dlc_disconnection(self)
+        self.emit(self.EVENT_CLOSE)
+
     def on_uih_frame(self, frame: RFCOMM_Frame) -> None:
         data = frame.information
         if frame.p_f == 1:
